@@ -36,6 +36,17 @@ CLAIMS.update({
             "DESIGN 4/C11", "contract-based deductive verification with effect traces and fault injection at every external (pyvc+z3)", FS_NOTE),
 })
 
+CLAIMS.update({
+    "C08": ("other", "Cache validity invariant (every entry hashes to its key) proved as an invariant of every function that writes the in-memory or persistent cache under contract "
+            "(_get_statepoint, _read_cache, update_cache, Job.init, move, re-key); update_cache postcondition: the file lists exactly the workspace ids, 'nothing to do' iff it already did; "
+            "_get_statepoint returns a value hashing to the id whether it came from the cache or the workspace (transparency). _update_in_memory_cache (thread pool) is an assumed contract "
+            "(bounded check): level 'other'.", "DESIGN 4/C08", "contract-based deductive verification (pyvc+z3), cache maps as z3 arrays", FS_NOTE),
+    "C10": ("other", "update_cache crash invariant asserted after every file-system effect incl. create/truncate and torn writes of the temp file: the cache file is always the complete old "
+            "or a complete new content, only the '~' temp file may be torn, temp removed on error. Documents: the constructor sites pass write_concern=True (call-site obligations); the "
+            "dependency's temp+replace contract itself is assumed (bounded crash-injection check).", "DESIGN 4/C10",
+            "contract-based deductive verification with effect traces (pyvc+z3)", FS_NOTE),
+})
+
 NOT_YET = "not yet under contract in this round of the build (see DESIGN.md section 8 for the order); no check is registered, nothing is claimed"
 
 NA = {}
